@@ -431,7 +431,7 @@ Proof. reflexivity. Qed.
 
 
 (* ====================================================================================== *)
-(* parser invariant: fields are non-negative int64, stability is one of 0..4               *)
+(* parser invariant: fields are non-negative int64, stability lies in stabilityDev..Stable  *)
 (* ====================================================================================== *)
 Local Open Scope Z_scope.
 
@@ -441,7 +441,7 @@ Definition wf (c : core) : Prop :=
   match c with
   | CDev _ => True
   | CRel ma mi pa ex st n =>
-      int63 ma /\ int63 mi /\ int63 pa /\ int63 ex /\ 0 <= st <= 4 /\ int63 n
+      int63 ma /\ int63 mi /\ int63 pa /\ int63 ex /\ stabilityDev <= st <= stabilityStable /\ int63 n
   end.
 
 Definition digit_headed (d : bytes) : Prop :=
@@ -520,14 +520,72 @@ Proof.
     + destruct (tail_ok r); discriminate.
 Qed.
 
-Lemma stab_of_range w : 0 <= stab_of w <= 4.
+(* The named levels are strictly increasing, and every rank of stabilityMap is one of the
+   pre-release levels.  Both are computed on the generated table as it is, so they are
+   re-checked whenever the Go constants change; nothing below looks at the numbers. *)
+Lemma stability_levels_increasing :
+  stabilityDev < stabilityAlpha /\ stabilityAlpha < stabilityBeta /\
+  stabilityBeta < stabilityRC /\ stabilityRC < stabilityStable.
+Proof. vm_compute. repeat split. Qed.
+
+Lemma stabilityMap_ranks_bounded :
+  forallb (fun kv => (stabilityDev <=? snd kv) && (snd kv <? stabilityStable)) stabilityMap = true.
+Proof. vm_compute. reflexivity. Qed.
+
+Lemma lookup_in {A} k (l : list (bytes * A)) v : lookup k l = Some v -> In (k, v) l.
 Proof.
-  unfold stab_of. destruct (beq (to_lower w) $"patch" || beq (to_lower w) $"pl").
-  - unfold stabilityStable. lia.
-  - unfold stabilityMap, lookup.
-    repeat match goal with
-           | |- context [if beq ?a ?b then _ else _] => destruct (beq a b)
-           end; unfold stabilityStable; lia.
+  induction l as [|[k' v'] l IH]; [discriminate|]. cbn [lookup].
+  destruct (beq k k') eqn:E.
+  - intros H. injection H as <-. apply beq_eq in E. subst k'. left. reflexivity.
+  - intros H. right. apply IH, H.
+Qed.
+
+Lemma stab_of_range w : stabilityDev <= stab_of w <= stabilityStable.
+Proof.
+  pose proof stability_levels_increasing as (H1 & H2 & H3 & H4).
+  unfold stab_of. destruct (beq (to_lower w) $"patch" || beq (to_lower w) $"pl"); [lia|].
+  destruct (lookup (to_lower w) stabilityMap) as [s|] eqn:E; [|lia].
+  apply lookup_in in E.
+  pose proof (proj1 (forallb_forall _ _) stabilityMap_ranks_bounded _ E) as Hb. cbv beta in Hb.
+  cbn [snd] in Hb. apply andb_true_iff in Hb. destruct Hb as [Ha Hb].
+  apply Z.leb_le in Ha. apply Z.ltb_lt in Hb. lia.
+Qed.
+
+(* which named level each stability word gets (version.go: "alpha": stabilityAlpha, ...;
+   patch / pl and unknown words are stable).  Together with stability_levels_increasing this
+   fixes the relative order of the words without mentioning any number. *)
+Lemma stab_of_words :
+  stab_of $"dev" = stabilityDev /\
+  stab_of $"alpha" = stabilityAlpha /\ stab_of $"a" = stabilityAlpha /\
+  stab_of $"beta" = stabilityBeta /\ stab_of $"b" = stabilityBeta /\
+  stab_of $"RC" = stabilityRC /\ stab_of $"rc" = stabilityRC /\
+  stab_of $"patch" = stabilityStable /\ stab_of $"pl" = stabilityStable.
+Proof. vm_compute. repeat split. Qed.
+
+(* C03: with the same numbers, the marker word of the lower level gives the smaller version,
+   whatever numbers follow the words *)
+Theorem marker_level_lt a ds sfx1 w1 k1 sfx2 w2 k2 :
+  (a < two63)%N -> Forall (fun x => (x < two63)%N) ds -> (length ds <= 4)%nat ->
+  marked sfx1 w1 k1 -> marked sfx2 w2 k2 -> stab_of w1 < stab_of w2 ->
+  exists c1 c2, parse_core (numtext (a :: ds) ++ sfx1) = Some c1 /\
+                parse_core (numtext (a :: ds) ++ sfx2) = Some c2 /\ cmp_core c1 c2 = Lt.
+Proof.
+  intros Ha Hds Hl Hm1 Hm2 Hlt.
+  rewrite (parse_core_marked a ds sfx1 w1 k1 Ha Hds Hl Hm1),
+          (parse_core_marked a ds sfx2 w2 k2 Ha Hds Hl Hm2).
+  do 2 eexists. split; [reflexivity|]. split; [reflexivity|].
+  rewrite cmp_same_nums. apply Z.compare_lt_iff in Hlt. rewrite Hlt. reflexivity.
+Qed.
+
+Lemma marker_words_order :
+  stab_of $"dev" < stab_of $"alpha" /\ stab_of $"alpha" = stab_of $"a" /\
+  stab_of $"alpha" < stab_of $"beta" /\ stab_of $"beta" = stab_of $"b" /\
+  stab_of $"beta" < stab_of $"RC" /\ stab_of $"RC" = stab_of $"rc" /\
+  stab_of $"RC" < stab_of $"patch" /\ stab_of $"patch" = stab_of $"pl".
+Proof.
+  pose proof stability_levels_increasing as (H1 & H2 & H3 & H4).
+  pose proof stab_of_words as (D & A & A' & B & B' & R & R' & P & P').
+  rewrite D, A, A', B, B', R, R', P, P'. repeat split; assumption.
 Qed.
 
 Lemma parse_semantic_wf t c : parse_semantic t = SemOk c -> wf c.
@@ -551,7 +609,9 @@ Proof.
   - destruct (atoi_opt d) as [n|] eqn:A4; [|discriminate].
     pose proof (atoi_opt_headed _ _ (stab_suffix_headed _ _ _ Es) A4) as W4.
     intros H. injection H as <-. simpl. pose proof (stab_of_range w). tauto.
-  - intros H. injection H as <-. simpl. unfold stabilityStable, int63. repeat split; try lia;
+  - intros H. injection H as <-. simpl.
+    pose proof stability_levels_increasing as (H1 & H2 & H3 & H4).
+    unfold int63. repeat split; try lia;
       try apply W0; try apply W1; try apply W2; try apply W3.
 Qed.
 
@@ -571,3 +631,5 @@ Print Assumptions post_marker_gt.
 Print Assumptions post_marker_bare_eq.
 Print Assumptions fifth_component_ignored.
 Print Assumptions parse_core_wf.
+Print Assumptions marker_level_lt.
+Print Assumptions marker_words_order.
